@@ -4,7 +4,7 @@ from fractions import Fraction
 import z3
 from . import dag as D, real as R, uf as U, build
 
-REPLAY_DIR = os.path.join(build.VERIF, 'replay')
+REPLAY_DIR = os.environ.get('SYMX_REPLAY') or os.path.join(build.VERIF, 'replay')
 OK = ('unsat', 'syntactic', 'int_ok')
 
 
@@ -63,6 +63,16 @@ class Scenario:
         return list(self.assume) + list(self.enc.assumptions) + (self.path_formulas() if with_path else [])
 
     # ------------------------------------------------------------------ recording
+    MAX_REPLAYS = 2
+
+    def capped(self):
+        """after a couple of replayed violations in one scenario the remaining failing obligations are reported
+        against the first replay instead of being replayed one by one"""
+        conf = [r for r in self.results if r['status'] == 'sat' and r.get('confirmed') and r.get('replay')]
+        if len(conf) >= self.MAX_REPLAYS:
+            return conf[0]['replay']
+        return None
+
     def _rec(self, name, kind, status, t=0.0, **kw):
         d = {'name': self.name + ' :: ' + name, 'kind': kind, 'status': status, 't': round(t, 3)}
         d.update(kw)
@@ -96,6 +106,9 @@ class Scenario:
                 return self._rec(name, 'real', 'unknown', r.t, detail=r.detail)
             r.model = m
             r.detail = 'solver gave no verdict in time; concrete witness found by exact evaluation at a rational point'
+        cap = self.capped()
+        if cap:
+            return self._rec(name, 'real', 'sat', r.t, confirmed=True, replay=cap, note='solver model found; not replayed individually (scenario already has replayed violations)')
         rep = self.confirm_real(name, lhs_out, a, rhs, fs, r.model)
         return self._rec(name, 'real', 'sat', r.t, **rep)
 
@@ -329,7 +342,25 @@ class Scenario:
                 return self._rec(name, 'uf', 'unsat', time.time() - t, h=hash((self.uf.cid(na),)))
         if real_fallback:
             return self.real_eq(name + ' [real]', out_a, self.enc.out(out_b))
-        rep = self.confirm_uf(name, out_a, out_b)
+        cap = self.capped()
+        if cap:
+            return self._rec(name, 'uf', 'sat', time.time() - t, confirmed=True, replay=cap, note='recorded computations differ; not replayed individually (scenario already has replayed violations)')
+        rep = None
+        if not self.dag.poisons_of([na, nb]):
+            # the two recorded computations differ: ask the Real interpretation for an input that separates them
+            try:
+                va, vb = self.enc.node(na), self.enc.node(nb)
+                fs = self.base(True) + [self.enc.ne_formula(va, vb)]
+                pre = self.witness_search(fs[:-1], va, vb, tries=3)
+                r = R.Result(name, 'sat', 0.0, model=pre) if pre is not None else R.solve(name, fs, min(self.timeout, 30))
+                self.queries += 1
+                if r.status == 'sat':
+                    pt = {k: float(v) for k, v in self.point_from_model(r.model).items()}
+                    rep = self.confirm_uf(name, out_a, out_b, first_point=pt)
+            except Exception as e:  # encoding problems must not hide the structural difference
+                rep = None
+        if rep is None or not rep.get('confirmed'):
+            rep = self.confirm_uf(name, out_a, out_b)
         return self._rec(name, 'uf', 'sat', time.time() - t, **rep)
 
     def uf_node_eq(self, name, out_a, node_b):
@@ -340,16 +371,24 @@ class Scenario:
         return self._rec(name, 'uf', 'sat', 0.0, confirmed=True, note='out %s is not the expected input node' % out_a,
                          replay=self.write_replay(name, {'kind': 'uf_node', 'out': out_a}))
 
-    def confirm_uf(self, name, out_a, out_b):
+    def confirm_uf(self, name, out_a, out_b, first_point=None):
         if self.dag.poisons_of([self.dag.outs[out_a], self.dag.outs[out_b]]):
             return {'confirmed': True, 'note': 'result depends on uninitialised storage (POISON)',
                     'replay': self.write_replay(name, {'kind': 'uf', 'out_a': out_a, 'out_b': out_b, 'shadows': dict(self.script.shadows),
                                                        'decisions': self.decisions, 'poison': True})}
         rng = random.Random(12345)
-        for trial in range(4):
+        base_sh = dict(self.script.shadows)
+        if self.shadow_override:
+            base_sh.update(self.shadow_override)
+        for trial in range(4 if first_point is None else 1):
             pt = {}
-            for nm, sh in self.script.shadows.items():
-                pt[nm] = float(sh) if trial == 0 else float(sh) * (1 + 0.37 * rng.random()) + 0.01 * rng.random()
+            for nm, sh in base_sh.items():
+                if first_point is not None:
+                    pt[nm] = float(first_point.get(nm, sh))
+                elif trial == 0 or self.decisions:
+                    pt[nm] = float(sh)
+                else:
+                    pt[nm] = float(sh) * (1 + 0.37 * rng.random()) + 0.01 * rng.random()
             try:
                 nd = D.run(self.tu, self.script.text(self.decisions, pt), native=True)
             except Exception as e:
